@@ -89,6 +89,10 @@ def enc(o: Any) -> Any:
         return o
     if isinstance(o, bytes):
         return {"$b": o.hex()}
+    if type(o).__name__ == "Decimal":
+        return {"$dec": str(o)}
+    if type(o).__name__ == "Fraction":
+        return {"$frac": [o.numerator, o.denominator]}
     if isinstance(o, tuple):
         return {"$t": [enc(x) for x in o]}
     if isinstance(o, list):
@@ -110,6 +114,14 @@ def dec(o: Any) -> Any:
             return bytes.fromhex(o["$b"])
         if "$f" in o and len(o) == 1:
             return float(o["$f"])
+        if "$dec" in o and len(o) == 1:
+            from decimal import Decimal
+
+            return Decimal(o["$dec"])
+        if "$frac" in o and len(o) == 1:
+            from fractions import Fraction
+
+            return Fraction(*o["$frac"])
         if "$t" in o and len(o) == 1:
             return tuple(dec(x) for x in o["$t"])
         if "$s" in o and len(o) == 1:
